@@ -532,9 +532,7 @@ func (r *runner) finishC06() {
 		r.leakCheck("goroutine-leak")
 		if cl.Kind == "Close" && !r.hasFail("goroutine-leak") {
 			r.lateAttach(r.h.Realms[0])
-			if !r.hasFail("late-attach") {
-				r.lateAPI()
-			}
+			r.lateAPI()
 		}
 	}
 }
